@@ -1454,6 +1454,25 @@ api_muladd(unsigned char *A, const unsigned char *B, size_t len,
 	p256_to_affine(&P);
 	p256_encode(A, &P);
 	r &= ~(z & t);
+
+	/*
+	 * A zero multiplier is an error: the special-case analysis above
+	 * assumes that neither product is the point at infinity.
+	 */
+	{
+		size_t u;
+		unsigned zx, zy;
+
+		zx = 0;
+		for (u = 0; u < xlen; u ++) {
+			zx |= x[u];
+		}
+		zy = 0;
+		for (u = 0; u < ylen; u ++) {
+			zy |= y[u];
+		}
+		r &= NEQ(zx, 0) & NEQ(zy, 0);
+	}
 	return r;
 }
 
